@@ -254,6 +254,11 @@ var regexpTests = []struct {
 	},
 	{pat: `[!-*]`, want: `(?s)[^-*]`},
 	{
+		pat: `[[:digit:]-Z]`, want: `(?s)[[:digit:]-Z]`,
+		mustMatch:    []string{"5", "-", "Z"},
+		mustNotMatch: []string{"A", "]"},
+	},
+	{
 		pat: `@(a|b)c`, mode: ExtendedOperators | EntireString, want: `(?s)^(a|b)c$`,
 		mustMatch:    []string{"ac", "bc"},
 		mustNotMatch: []string{"c", "@(a|b)c"},
